@@ -274,7 +274,14 @@ def run_shard(mod, tier: str, seed: int, shard: int, nshards: int, known: dict,
                 run_enum_part(ctx, part, tier)
             else:
                 ctx.deadline = time.monotonic() + part.budget_s[tier]
-                part.run(ctx, tier)
+                try:
+                    part.run(ctx, tier)
+                except Violation as v:  # custom parts may simply raise
+                    if ctx.is_known(v.bucket):
+                        ctx.known_hits[v.bucket] += 1
+                    else:
+                        ctx.add_failure(part.name, v.bucket, getattr(v, "case", None),
+                                        v.message)
     except BaseException as e:  # harness error: report, exit 2
         if isinstance(e, KeyboardInterrupt):
             raise
